@@ -44,6 +44,10 @@ type program struct {
 	// ThoroughOnlyOn: engine on which the program is too expensive for the quick tier (stack exhaustion in
 	// the compiler touches a 50 MB stack: ~0.2 s per run).
 	ThoroughOnlyOn string
+	// Feat: experimental core feature every runtime of this program enables on top of WebAssembly 2.0
+	// ("" none, "tail" = CoreFeaturesTailCall, "threads" = CoreFeaturesThreads). A semantic base like the
+	// memory limit: the baseline has it too.
+	Feat string
 }
 
 func (p *program) tag() string {
@@ -1538,7 +1542,7 @@ func famInitErr(th bool) []*program {
 
 func buildCorpus(thorough bool) []*program {
 	var ps []*program
-	for _, f := range []func(bool) []*program{famArith, famControl, famMem, famGlobals, famTables, famBulk, famHost, famTraps, famMV, famSections, famStart, famV2, famLinked, famLinkedHost, famInitErr} {
+	for _, f := range []func(bool) []*program{famArith, famControl, famMem, famGlobals, famTables, famBulk, famHost, famTraps, famMV, famSections, famStart, famV2, famLinked, famLinkedHost, famInitErr, famTailCall} {
 		ps = append(ps, f(thorough)...)
 	}
 	seen := map[string]bool{}
